@@ -74,7 +74,8 @@ inline std::string firstLines(const std::string &path, int maxLines, size_t maxC
 
 // Runs body() in a forked child with a wall-clock budget.  The child writes its own events; if it does not
 // end with exit code 0 the parent appends the event describing its fate.  Returns true if the child ended normally.
-inline bool forked(int run, int timeoutSec, const std::string &errPath, const std::function<void()> &body) {
+inline bool forked(int run, int timeoutSec, const std::string &errPath, const std::function<void()> &body,
+                   const char *scen = "") {
   fflush(stdout);
   fflush(stderr);
   pid_t pid = fork();
@@ -112,6 +113,7 @@ inline bool forked(int run, int timeoutSec, const std::string &errPath, const st
     v.set("code", WIFSIGNALED(status) ? WTERMSIG(status) : WEXITSTATUS(status));
   }
   v.set("run", run);
+  v.set("scen", scen);
   v.set("stderr", firstLines(errPath, 8));
   emit(v);
   return false;
